@@ -12,7 +12,6 @@ import (
 	"flag"
 	"fmt"
 	"os"
-	"sort"
 	"strings"
 )
 
@@ -215,16 +214,13 @@ func (g *HGen) Lean() string {
 	b.WriteString("import Aergo.Model.HostApi\n\nnamespace Aergo.Gen.HostApi\nopen Aergo.HostApi\n\n")
 	hNewLeanProg(g.Real).emit(&b, "program", "IR of every `//export`ed host callback of package contract, of the Go-level read-only entry points and of every in-package function they call")
 	hNewLeanProg(g.Corpus).emit(&b, "corpus", "IR of the synthetic callbacks of the extractor self-test (corpus/C20)")
-	var exp [][]string
-	var names []string
-	for n := range g.Expect {
-		names = append(names, n)
+	var exp []string
+	for _, f := range g.Corpus.Funcs {
+		if f.Exported {
+			exp = append(exp, fmt.Sprintf("(%s, .%s)", hLeanStr(f.Name), g.Expect[f.Name]))
+		}
 	}
-	sort.Strings(names)
-	for _, n := range names {
-		exp = append(exp, []string{n, g.Expect[n]})
-	}
-	fmt.Fprintf(&b, "/-- verdicts the corpus annotations expect -/\ndef corpusExpect : List (String × String) := %s\n\n", hLeanTuples(exp))
+	fmt.Fprintf(&b, "/-- verdicts the corpus annotations expect, in the order of `corpus.verdicts` -/\ndef corpusExpect : List (String × Verdict) := [\n  %s]\n\n", strings.Join(exp, ",\n  "))
 	f := g.Real.Facts
 	fact := func(name, doc string, rows [][]string, arity int) {
 		ty := "String"
@@ -252,6 +248,15 @@ func (g *HGen) Lean() string {
 	fact("ctxBuilders", "callers of the context constructors among the analysed functions: (constructor, caller)", callers, 2)
 	fact("assumeWhy", "why each assumption on condition atoms is made: (function, reason)", g.assumeWhy(), 2)
 	fact("stateApi", "methods of the state-bearing types and their class in the reviewed tables: (type, method, class)", hT3(g.StateAPI), 3)
+	var uncl [][3]string
+	for _, r := range g.StateAPI {
+		switch r[2] {
+		case "ro", "mut", "mutQ", "restore", "txctl", "cache":
+		default:
+			uncl = append(uncl, r)
+		}
+	}
+	fact("stateApiUnclassified", "the rows of `stateApi` whose class is not one of ro/mut/mutQ/restore/txctl/cache (unclassified, or a mutating method whose bare name the extractor treats as harmless)", hT3(uncl), 3)
 	fact("queryCalls", "call sites of contract.Query / contract.CheckFeeDelegation: (file, function, callee, origin of the BlockState argument)", hT4(g.QueryCalls), 4)
 	g.C.Lean(&b)
 	b.WriteString("end Aergo.Gen.HostApi\n")
@@ -279,6 +284,22 @@ func (c *HCFacts) Lean(b *strings.Builder) {
 	}
 	b.WriteString("]\n\n")
 	fmt.Fprintf(b, "/-- direct C callers of the exported Go callbacks: (callback, C function) -/\ndef cCallbackCallers : List (String × String) := %s\n\n", hLeanTuples(hT2(c.CallbackCallers)))
+	var internal [][2]string
+	for _, r := range c.CallbackCallers {
+		if hostInternalCallbacks[r[0]] {
+			internal = append(internal, r)
+		}
+	}
+	fmt.Fprintf(b, "/-- the rows of `cCallbackCallers` for the callbacks that only the C glue may call (recovery points, event truncation, view bracket) -/\ndef cInternalCallers : List (String × String) := %s\n\n", hLeanTuples(hT2(internal)))
+	var registered [][2]string
+	for _, f := range c.LuaFns {
+		for _, cb := range f.Callbacks {
+			if hostInternalCallbacks[cb] {
+				registered = append(registered, [2]string{f.Table + "." + f.LuaName, cb})
+			}
+		}
+	}
+	fmt.Fprintf(b, "/-- registered Lua functions from which one of those callbacks is reachable: (table.name, callback) -/\ndef cInternalRoutes : List (String × String) := %s\n\n", hLeanTuples(hT2(registered)))
 	fmt.Fprintf(b, "/-- assignments to the LuaJIT view-bracket function pointers: (pointer, function) -/\ndef cFnPtrWiring : List (String × String) := %s\n\n", hLeanTuples(hT2(c.FnPtrWiring)))
 }
 
